@@ -1,10 +1,23 @@
 #!/usr/bin/env python3
-"""usage: set_claim.py Cxx < json {"technique":..., "text":..., "note":...}  — updates tools/claims.json (read by mk_manifest.py)"""
+"""usage: set_claim.py Cxx [--append] < json {"technique":..., "text":..., "note":...}
+Updates tools/claims.json (read by mk_manifest.py). --append: append to the current value (claims.json, else MANIFEST.json)."""
 import json, sys, os
 V = os.path.dirname(os.path.dirname(os.path.abspath(__file__)))
 p = os.path.join(V, "tools", "claims.json")
 c = json.load(open(p))
+pid = sys.argv[1]
+app = "--append" in sys.argv
 new = json.load(sys.stdin)
-c.setdefault(sys.argv[1], {}).update({k: v for k, v in new.items() if k in ("technique", "text", "note") and v})
+cur = c.setdefault(pid, {})
+if app:
+    chk = [x for x in json.load(open(os.path.join(V, "MANIFEST.json")))["checks"] if x["property_id"] == pid][0]
+    base = {"technique": chk.get("technique", ""), "text": chk["level_claimed"]["text"], "note": chk["level_note"]}
+    for k, v in new.items():
+        if k in base and v:
+            old = cur.get(k) or base[k]
+            if v.strip() not in old:
+                cur[k] = old.rstrip() + " " + v.strip()
+else:
+    cur.update({k: v for k, v in new.items() if k in ("technique", "text", "note") and v})
 json.dump(c, open(p, "w"), indent=1, ensure_ascii=False)
-print("ok", sys.argv[1], list(c[sys.argv[1]]))
+print("ok", pid, {k: len(v) for k, v in cur.items()})
